@@ -44,7 +44,38 @@ for d in sorted(glob.glob(os.path.join(here, "seeded", "C*-m*"))):
     rows.append("| %s | %s | %s | %s | %s | %s |" % (name, meta.get("property", name[:3]), esc(meta.get("summary", ""))[:300], esc(meta.get("needs_to_manifest", ""))[:300], conf, esc(det)))
 seeded = "\n".join(rows)
 
-for key, table in (("findings", findings), ("seeded", seeded)):
+# ---- per-property "as built" summary from checks/registry.json and coq/Props/*.v
+import subprocess
+reg = json.load(open(os.path.join(here, "checks", "registry.json")))
+parts = []
+for pid in sorted(reg["checks"]):
+    r = reg["checks"][pid]
+    if not r.get("claimed"):
+        continue
+    pf = os.path.join(here, "coq", "Props", pid + ".v")
+    names = []
+    if os.path.exists(pf):
+        txt = open(pf).read()
+        names = re.findall(r"^\s*(?:Theorem|Example|Lemma|Corollary)\s+([A-Za-z0-9_']+)", txt, re.M)
+    try:
+        deps = subprocess.run(["coqdep", "-Q", ".", "RH", "-sort", "Props/%s.v" % pid], cwd=os.path.join(here, "coq"),
+                              capture_output=True, text=True).stdout.split()
+    except Exception:
+        deps = []
+    deps = [d for d in deps if d.endswith(".v") and not d.startswith("Props/")]
+    nlines = 0
+    for d in deps:
+        try:
+            nlines += sum(1 for _ in open(os.path.join(here, "coq", d)))
+        except Exception:
+            pass
+    parts.append("#### %s  (level claimed: %s)\n\n*Technique.* %s\n\n*What is proved and what runs.* %s\n\n*Assumptions / trusted / partial.* %s\n\n"
+                 "*Coq development* (%d files, %d lines, dependency cone of `Props/%s.v`): %s\n\n*Theorems in `Props/%s.v`* (%d): %s\n" % (
+                     pid, r["category"], r["technique"], r["text"], r["note"], len(deps), nlines, pid,
+                     ", ".join("`%s`" % d for d in deps), pid, len(names), ", ".join("`%s`" % n for n in names)))
+asbuilt = "\n".join(parts)
+
+for key, table in (("findings", findings), ("seeded", seeded), ("asbuilt", asbuilt)):
     pat = re.compile(r"(<!-- BEGIN:%s -->\n).*?(<!-- END:%s -->)" % (key, key), re.S)
     assert pat.search(s), key
     s = pat.sub(lambda m: m.group(1) + table + "\n" + m.group(2), s)
